@@ -241,7 +241,7 @@ class Ctx:
         }
         ev['coverage'].update(self.extra)
         os.makedirs(os.path.join(VERIF, 'evidence'), exist_ok=True)
-        if code != 2:
+        if code != 2 and not os.environ.get('VERIF_NO_EVIDENCE'):
             json.dump(ev, open(os.path.join(VERIF, 'evidence', f'{self.pid}.json'), 'w'), indent=1, default=str)
         print(f'[{self.pid}] tier={self.tier} seed={self.seed} paths={states} blocks={S.totals["blocks"]} '
               f'assert-queries={self.queries["discharged"]} (unsat {self.queries["unsat"]}, sat {self.queries["sat"]}) '
